@@ -17,7 +17,9 @@ REG = {
         oracle='c02', profiles=[('dyn', 3, None), ('lock', 1, None)],
         quick=12000, thorough=120000, thorough_cfg={'steps': (3, 250)},
         vacuity=['instants', 'eta_lt_1_pairs', 'continuations', 'F_RESET',
-                 'redeclared_between_runs'],
+                 'redeclared_between_runs', 'F_BRANCH',
+                 'F_OTHER_POWERTRAIN', 'F_SETPWM', 'F_SETLOAD',
+                 'F_UNITSWITCH_LIVE', 'later_phases'],
         rule=_HIST + 'non-trivial = at least one instant with every torque '
         'relation evaluated'),
     'C03': dict(
